@@ -34,6 +34,7 @@ CONSTANTS
   Rounds = %(rounds)d
   MaxBreaks = %(breaks)d
   WithClose = {%(close)s}
+  Ctxs = {%(ctxs)s}
   Devs = {%(devs)s}
   Gen = %(gen)s
   DelayBound = %(db)d
@@ -43,16 +44,25 @@ SAFETY = "VIEW View\nINVARIANTS NoViolation TypeOK OnePlace\n"
 LIVE = "VIEW View\nINVARIANTS NoViolation\nPROPERTIES Terminates CloseTerminates NoLeak\n"
 
 
+ALL_CTXS = ("live", "dead", "probe", "nonew")
+
+
+
+def wk(n):
+    """TLC worker threads: n, capped by VERIF_TLC_WORKERS_MAX (for a machine shared with other runs)"""
+    return max(1, min(n, int(os.environ.get("VERIF_TLC_WORKERS_MAX") or n)))
+
+
 def cfg(nw=2, keys=("k1",), mpk=1, mk=1, maxtime=3, rounds=1, breaks=1, close=("TRUE", "FALSE"), devs=(),
-        gen=False, db=1000, tail=SAFETY, spec="Spec"):
+        gen=False, db=1000, tail=SAFETY, spec="Spec", ctxs=("live",)):
     return CFG % dict(spec=spec, nw=nw, keys=", ".join('"%s"' % k for k in keys), mpk=mpk, mk=mk, life=LIFE,
                       stale=STALE, period=PERIOD, maxtime=maxtime, rounds=rounds, breaks=breaks,
-                      close=", ".join(close), devs=", ".join('"%s"' % d for d in devs),
+                      close=", ".join(close), ctxs=", ".join('"%s"' % c for c in ctxs), devs=", ".join('"%s"' % d for d in devs),
                       gen="TRUE" if gen else "FALSE", db=db, tail=tail)
 
 
 FIELDS = {"t", "seq", "e", "k", "n", "close", "workers", "maxPerKey", "maxKeys", "life", "stale", "w", "c", "key", "now", "fresh",
-          "byHolder", "hung", "g"}
+          "byHolder", "hung", "g", "cx"}
 
 
 def project(e):
@@ -89,9 +99,19 @@ def scenarios(thorough):
     out.append(scen(["w1", "w2"], ["k1"], {"w1": [g("k1"), r, g("k1"), r], "w2": [g("k1"), r]}, mpk=0))
     out.append(scen(["w1", "w2"], ["k1", "k2"], {"w1": [g("k1"), r, g("k2"), r], "w2": [g("k2"), r, g("k1"), d]},
                     mpk=0, mk=1, close=False))
+    # contexts of Get (Ctxs of Pool.tla): cancelled before the call, cancelled during the probe of a pooled
+    # connection, dial failure - on live non-empty, empty, expired buckets and next to an unusable connection
+    out.append(scen(["w1", "w2"], ["k1"], {"w1": [g("k1"), r, g("k1") + ["dead"], r],
+                                           "w2": [g("k1") + ["probe"], r, g("k1") + ["nonew"], r]}, maxtime=4))
+    out.append(scen(["w1", "w2", "w3"], ["k1", "k2"], {"w1": [g("k1"), r, g("k2") + ["probe"], r],
+                                                       "w2": [g("k2"), r, g("k1") + ["dead"], d],
+                                                       "w3": [g("k1") + ["probe"], r, g("k1"), r]}, mpk=2, mk=2, maxtime=4))
     if thorough:
         ws = ["w%d" % i for i in range(1, 9)]
         out += [
+            scen(ws[:4], ["k1", "k2"], {w: [g("k1") + [ALL_CTXS[i % 4]], r, g("k2") + [ALL_CTXS[(i + 1) % 4]], r,
+                                            g("k1") + [ALL_CTXS[(i + 2) % 4]], r]
+                                        for i, w in enumerate(ws[:4])}, mpk=2, mk=2, maxtime=4),
             scen(ws[:4], ["k1", "k2"], {w: [g("k1"), r, g("k2"), r, g("k1"), r] for w in ws[:4]}, mpk=2, mk=2, maxtime=4),
             scen(ws, ["k1", "k2", "k3"], {w: [g("k%d" % (1 + i % 3)), r, g("k%d" % (1 + (i + 1) % 3)), r]
                                           for i, w in enumerate(ws)}, mpk=2, mk=2, maxtime=4),
@@ -129,6 +149,37 @@ def full_bucket_windows(thorough):
     return out
 
 
+def cancelled_gets(thorough):
+    """Directed schedules "the caller's context is dead while Get holds a pooled connection": one (two) connections
+    are returned to the bucket, then a Get whose context is cancelled before the call / during the probe / whose dial
+    fails runs on the non-empty bucket - with the head connection usable, dropped by the peer, or the bucket
+    expired - followed by a second, live Get and the shutdown."""
+    out = []
+    for cx in ALL_CTXS[1:]:
+        for npool in ((1, 2) if thorough else (1,)):
+            for head in ("usable", "broken", "expired"):
+                ws = ["w%d" % i for i in range(1, npool + 3)]
+                ops = {w: [["get", "k1"], ["ret"]] for w in ws[:npool]}
+                ops[ws[npool]] = [["get", "k1", cx], ["ret"]]
+                ops[ws[npool + 1]] = [["get", "k1"], ["ret"]]
+                sched = []
+                for w in ws[:npool]:
+                    sched += [w + ":get:k1", w, w]
+                for w in ws[:npool]:
+                    sched += [w + ":ret", w]
+                if head == "broken":
+                    sched += ["break:c1"]
+                if head == "expired":
+                    sched += ["clock", "clock"]
+                wc, wl = ws[npool], ws[npool + 1]
+                sched += [wc + ":get:k1:" + cx] + [wc] * 5 + [wc + ":ret", wc]
+                sched += [wl + ":get:k1"] + [wl] * 4 + [wl + ":ret", wl]
+                for close in (True, False):
+                    sc = scen(ws, ["k1"], ops, close=close, mpk=npool, maxtime=4)
+                    out.append({"cfg": sc, "pol": "list", "sched": sched, "src": "ctx"})
+    return out
+
+
 def old_bucket_fresh_conns(thorough):
     """Directed schedules "expired bucket holding several fresh connections": a bucket's lastUse stamp is written
     only when the bucket is created, so connections returned shortly before the bucket turns MaxConnLifetime old
@@ -163,15 +214,23 @@ def run(ctx, replay):
 
     if not replay and not os.environ.get("VERIF_DEV_SKIP_MC"):
         if thorough:
-            r = ctx.tlc_expect_ok("Pool", None, name="mc", workers=16, timeout=3000,
+            r = ctx.tlc_expect_ok("Pool", None, name="mc", workers=wk(16), timeout=3000,
                                   cfg_text=cfg(2, ("k1",), rounds=2, maxtime=2, breaks=0, close=("TRUE",)))
-            r2 = ctx.tlc_expect_ok("Pool", None, name="mc2", workers=16, timeout=3000,
+            r2 = ctx.tlc_expect_ok("Pool", None, name="mc2", workers=wk(16), timeout=3000,
                                    cfg_text=cfg(2, ("k1", "k2"), mk=1, rounds=1, maxtime=3, breaks=1))
             ctx.cov["states_two_keys"] = r2["distinct"]
         else:
-            r = ctx.tlc_expect_ok("Pool", None, name="mc", workers=8, timeout=600,
+            r = ctx.tlc_expect_ok("Pool", None, name="mc", workers=wk(8), timeout=600,
                                   cfg_text=cfg(2, ("k1",), rounds=1, maxtime=3, breaks=1))
-        r0 = ctx.tlc_expect_ok("Pool", None, name="mc0", workers=4, timeout=600,
+        # the contexts a Get may be called with (cancelled before the call, during the probe, dial failure)
+        if thorough:
+            rc = ctx.tlc_expect_ok("Pool", None, name="mcctx", workers=wk(16), timeout=3000,
+                                   cfg_text=cfg(2, ("k1",), rounds=1, maxtime=3, breaks=1, ctxs=ALL_CTXS))
+        else:
+            rc = ctx.tlc_expect_ok("Pool", None, name="mcctx", workers=wk(6), timeout=900,
+                                   cfg_text=cfg(2, ("k1",), rounds=1, maxtime=1, breaks=1, close=("TRUE",), ctxs=ALL_CTXS))
+        ctx.cov["states_get_contexts"] = rc["distinct"]
+        r0 = ctx.tlc_expect_ok("Pool", None, name="mc0", workers=wk(4), timeout=600,
                                cfg_text=cfg(2, ("k1",), mpk=0, rounds=2 if thorough else 1, maxtime=2, breaks=0))
         ctx.cov["states_max_conns_per_key_0"] = r0["distinct"]
         ctx.cov["states"] = r["distinct"]
@@ -179,21 +238,22 @@ def run(ctx, replay):
         ctx.cov["model_depth"] = r["depth"]
         ctx.log("TLC exhaustive (safety): %d distinct states, %d transitions, depth %d, %.1fs" % (
             r["distinct"], r["generated"], r["depth"], r["wall"]))
-        rl = ctx.tlc_expect_ok("Pool", None, name="live", workers=8, timeout=1200,
+        rl = ctx.tlc_expect_ok("Pool", None, name="live", workers=wk(8), timeout=1200,
                                cfg_text=cfg(2, ("k1",), rounds=1, maxtime=2, breaks=0, tail=LIVE))
         ctx.cov["liveness_states"] = rl["distinct"]
         ctx.log("TLC liveness (weak fairness): %d distinct states, %.1fs" % (rl["distinct"], rl["wall"]))
         # non-vacuity: two broken designs must be rejected by the same invariant
-        for dev in ("NoLifetimeTest", "CloseNoDrain"):
-            ra = ctx.tlc("Pool", None, name="mut-" + dev, workers=4, timeout=600,
+        for dev in ("NoLifetimeTest", "CloseNoDrain", "CtxDropsConn"):
+            ra = ctx.tlc("Pool", None, name="mut-" + dev, workers=wk(4), timeout=600,
                          cfg_text=cfg(2, ("k1",), rounds=1, maxtime=3, breaks=0, close=("TRUE",), devs=[dev],
+                                      ctxs=("live", "dead") if dev == "CtxDropsConn" else ("live",),
                                       tail="VIEW View\nINVARIANTS NoViolation\n"))
             if ra["invariant"] != "NoViolation":
                 raise vlib.Infra("mutated design %s is not rejected: vacuous invariant (%s, %s)" % (
                     dev, ra["invariant"], ra["error"]))
-        ctx.cov["mutated_designs_rejected"] = ["NoLifetimeTest", "CloseNoDrain"]
+        ctx.cov["mutated_designs_rejected"] = ["NoLifetimeTest", "CloseNoDrain", "CtxDropsConn"]
         if thorough:
-            g = ctx.tlc("Pool", None, name="simbig", workers=8, timeout=1500, simulate=2500, depth=220,   # num is per worker
+            g = ctx.tlc("Pool", None, name="simbig", workers=wk(8), timeout=1500, simulate=2500, depth=220,   # num is per worker
                         cfg_text=cfg(8, ("k1", "k2", "k3"), mpk=2, mk=2, rounds=2, maxtime=4, breaks=2,
                                      tail="INVARIANTS NoViolation TypeOK OnePlace\n"))
             if not g["ok"]:
@@ -206,7 +266,7 @@ def run(ctx, replay):
         behs[0]["id"] = 1
     else:
         behs = []
-        g = ctx.tlc("Pool", None, name="gen", workers=4, timeout=1500,
+        g = ctx.tlc("Pool", None, name="gen", workers=wk(4), timeout=1500,
                     cfg_text=cfg(2, ("k1",), rounds=2 if thorough else 1, maxtime=3, breaks=1, close=("TRUE",),
                                  gen=True, db=2, tail="CHECK_DEADLOCK FALSE\n"))
         if not g["ok"]:
@@ -215,9 +275,24 @@ def run(ctx, replay):
         ctx.cov["tlc_delay_bounded_schedules"] = len(tlc_behs)
         if not tlc_behs:
             raise vlib.Infra("TLC produced no schedules")
-        for b in (tlc_behs if thorough else vlib.sample(ctx.rng, tlc_behs, 300)):
+        # the same with every context a Get may be called with; kept: schedules with a Get that is not "live"
+        gx = ctx.tlc("Pool", None, name="genctx", workers=wk(4), timeout=1500,
+                     cfg_text=cfg(2, ("k1",), rounds=1, maxtime=2 if not thorough else 3, breaks=1, close=("TRUE",),
+                                  gen=True, db=2 if thorough else 1, tail="CHECK_DEADLOCK FALSE\n", ctxs=ALL_CTXS))
+        if not gx["ok"]:
+            raise vlib.Infra("behaviour generation (contexts) failed: %s %s" % (gx["invariant"], gx["error"]))
+        ctx_behs = [v for tag, v in gx["printed"] if tag == "BEH"
+                    and any(x.count(":") >= 3 for x in v["sched"] if ":get:" in x)]
+        ctx.cov["tlc_delay_bounded_schedules_with_contexts"] = len(ctx_behs)
+        if not ctx_behs:
+            raise vlib.Infra("TLC produced no schedules with a cancelled Get")
+        for b in (tlc_behs if thorough else vlib.sample(ctx.rng, tlc_behs, 200)):
             c = dict(b["cfg"], ops=ops_of(b["sched"]))
             behs.append({"cfg": c, "pol": "list", "sched": b["sched"], "src": "tlc"})
+        for b in (ctx_behs if thorough else vlib.sample(ctx.rng, ctx_behs, 120)):
+            c = dict(b["cfg"], ops=ops_of(b["sched"]))
+            behs.append({"cfg": c, "pol": "list", "sched": b["sched"], "src": "tlcctx"})
+        behs += cancelled_gets(thorough)
         behs += full_bucket_windows(thorough)
         behs += old_bucket_fresh_conns(thorough)
         for sc in scenarios(thorough):
@@ -262,7 +337,7 @@ def run(ctx, replay):
             events = events + c1 + c2
             selftest = {900001: "corrupt-field", 900002: "drop-event"}
 
-    tcfg = cfg(8, ("k1", "k2", "k3"), rounds=4, maxtime=9, breaks=4, close=("TRUE",), spec="TSpec",
+    tcfg = cfg(8, ("k1", "k2", "k3"), rounds=4, maxtime=9, breaks=4, close=("TRUE",), spec="TSpec", ctxs=ALL_CTXS,
                tail="CHECK_DEADLOCK FALSE\nPOSTCONDITION Post\n")
     verdicts = base.validate_parallel(ctx, "PoolTrace", [project(e) for e in events], tcfg, batch=150,
                                       par=8 if thorough else 6)
@@ -298,7 +373,9 @@ def run(ctx, replay):
     ctx.cov["distinct_nontrivial"] = reuse
     ctx.cov["rule"] = ("schedules = delay-bounded (<=2) schedules of Pool.tla printed by TLC; delay positions (0,1,2) on "
                        "the code's own non-preemptive schedule; seeded random schedules; scenarios with 2-%d workers, "
-                       "1-3 keys, MaxConnsPerKey 1-2, lifetime and stale-key bounds hit, sweeps and one shutdown; "
+                       "1-3 keys, MaxConnsPerKey 1-2, lifetime and stale-key bounds hit, sweeps and one shutdown; Gets called with a live "
+                       "context, one cancelled / past its deadline before the call, one cancelled during the Usable() probe, and "
+                       "with a failing dial (TLC schedules, directed schedules on usable / broken / expired heads, scenarios); "
                        "non-trivial = a pooled connection was actually reused" % (8 if thorough else 3))
     ctx.cov["violated_predicates"] = preds
     for b in behs[:3]:
@@ -316,6 +393,10 @@ def run(ctx, replay):
         "connection objects are harness objects (owner, close count); Usable() = not closed and not dropped by the peer",
         "time is the fake clock of a testing/synctest bubble; one unit = 30 s (ticker period 60 s = 2 units)",
         "a single Close per pool; integration with remote.Target is covered by C05's harness, not here",
+        "cfg.New honours the caller's context as a dialer does (error when it is cancelled or past its deadline); a Get "
+        "that returns an error is the event GetFail, the worker holds nothing; the design hands a pooled connection that "
+        "passes the tests out whatever the context says (as pool.go does) - closing it or putting it back instead would "
+        "be DRIFT, dropping it is LeakedAfterShutdown",
     ]
 
 
@@ -336,7 +417,8 @@ META = {
     "text": "TLC visits every interleaving of 2 workers doing get/use/return on 1-2 keys (MaxConnsPerKey 1) with 3 clock "
             "ticks, one clean-up sweep, a dropped idle connection and one shutdown, and checks: held by at most one "
             "worker, never handed out closed / expired / after shutdown, closed at most once and not while held, no "
-            "leak once the pool is closed, termination. The same predicates are evaluated by TLC over histories recorded "
+            "leak once the pool is closed, termination; a second exhaustive run lets every Get be called with a live context, a "
+            "context cancelled before the call or during the probe of a pooled connection, or a failing dial. The same predicates are evaluated by TLC over histories recorded "
             "from the real pool driven through delay-bounded (<=2) and random schedules with up to 8 workers and 3 keys.",
     "note": "Bounded: delay bound 2; exhaustive model for 2 workers; 3-8 workers by simulation and seeded schedules on "
             "the code. Critical sections are atomic steps. Trusted: TLC, harness/vsched, the instrumenter, Go toolchain.",
